@@ -5,6 +5,7 @@ mod adev;
 mod ctx;
 mod dev;
 mod explore;
+mod phy;
 mod refcodec;
 mod refcrypto;
 mod refmac;
